@@ -367,12 +367,29 @@ pub fn inspect_event(w: &World, ev: &SpecEv, path: &[HCall], o: &Opts, sum: &mut
 
 /// Emit one observer event per output (XML, DOT, Debug, Display, v_print and inspect of every present vertex) for
 /// handle `h` of a world, unconditionally: the judge compares the parsed facts with the reference state.
+/// The text a label token is printed as (Label.tla: a Greek label is its character, an index is the alpha sign and the
+/// number, a Str is its non-blank characters): computed from the token, never by the library.  Tokens of label VALUES no
+/// text denotes ("~s:a b", "~s:z", "~g:x") print like another label; the judge compares printed forms as bags.
+pub fn printed_of_token(tok: &str) -> String {
+    if let Some(r) = tok.strip_prefix("~g:") {
+        return r.to_string();
+    }
+    if let Some(r) = tok.strip_prefix("~s:") {
+        return r.chars().filter(|c| *c != ' ').collect();
+    }
+    tok.to_string()
+}
+
 pub fn observe_all(w: &World, h: usize, tid: usize, what: &[String], out: &mut dyn std::io::Write) -> usize {
     let has = |k: &str| what.is_empty() || what.iter().any(|x| x == k);
     let mut n = 0;
+    let pr: Vec<Value> = w.labels.iter().filter(|t| printed_of_token(t) != **t).map(|t| json!([t, printed_of_token(t)])).collect();
     let mut emit = |mut e: Value, out: &mut dyn std::io::Write| {
         e["t"] = json!(tid);
         e["h"] = json!(h);
+        if !pr.is_empty() {
+            e["pr"] = json!(pr);
+        }
         writeln!(out, "{e}").unwrap();
     };
     if has("xml") {
